@@ -182,6 +182,8 @@ func cmdCheck(args []string) {
 	newLedger := Ledger{Property: *prop, Functions: map[string]string{}}
 	solverTime := 0.0
 	exit := 0
+	var slow []string
+	const slowThreshold = 3.0
 	for _, u := range units {
 		ukey := u.Pkg + " " + u.Key
 		funcsUnder = append(funcsUnder, ukey)
@@ -221,6 +223,9 @@ func cmdCheck(args []string) {
 				continue
 			}
 			total++
+			if o.Seconds > slowThreshold {
+				slow = append(slow, fmt.Sprintf("%.1fs %s (%s)", o.Seconds, o.name, o.Solver))
+			}
 			switch o.Status {
 			case "unsat":
 				discharged++
@@ -383,15 +388,18 @@ func cmdCheck(args []string) {
 			"not_claimed":              undecidedHits,
 			"undecided_new":            newUndecided,
 			"tool_errors":              toolErrors,
+			"slow_obligations":         slow,
 			"samples":                  samples,
 			"repo_head":                strings.Split(before, "|")[0],
 			"note":                     spec.Note,
 		},
 		"assumptions": assumptions,
 	}
-	os.MkdirAll(verifDir+"/evidence", 0o755)
-	data, _ := json.MarshalIndent(ev, "", " ")
-	os.WriteFile(fmt.Sprintf("%s/evidence/%s.json", verifDir, *prop), data, 0o644)
+	if os.Getenv("GOVC_NOEVIDENCE") == "" {
+		os.MkdirAll(verifDir+"/evidence", 0o755)
+		data, _ := json.MarshalIndent(ev, "", " ")
+		os.WriteFile(fmt.Sprintf("%s/evidence/%s.json", verifDir, *prop), data, 0o644)
+	}
 	os.Exit(exit)
 }
 
@@ -414,6 +422,9 @@ func truncate(s string, n int) string {
 // plain buffers and integers, runs it against the real code. Returns the file and whether the failure reproduced.
 func (w *World) replay(prop string, u *UnitResult, o *Oblig) (string, bool) {
 	dir := filepath.Join(verifDir, "replays", prop)
+	if os.Getenv("GOVC_NOEVIDENCE") != "" {
+		dir = filepath.Join(os.TempDir(), "govc-replays", prop)
+	}
 	os.MkdirAll(dir, 0o755)
 	base := filepath.Join(dir, sanitizeFile(o.name))
 	var b strings.Builder
